@@ -134,7 +134,9 @@ def c13_c16(which):
                 for da in range(K):
                     ia = min(da + u, sa); out[(ia, ib)] = out.get((ia, ib), 0) + pa[da] * pb[db] * subs[u]
         return out
-    grid = [(5, 5, 0.5, 10, 10, 2), (2, 3, 0.3, 3, 2, 1), (1, 1, 1.0, 2, 2, 2), (4, 1, 0.0, 3, 3, 1), (8, 8, 0.5, 3, 3, 1), (0.5, 0.5, 0.5, 1, 1, 1)] + ([(20, 20, 0.5, 2, 2, 1), (2, 2, 0.5, 4, 4, 2)] if TH else [])
+    # incl. unequal order limits with a negligible tail (A's limit far below B's), and - in ONE process - instances that differ only in the mean of A
+    grid = [(5, 5, 0.5, 10, 10, 2), (2, 3, 0.3, 3, 2, 1), (1, 1, 1.0, 2, 2, 2), (4, 1, 0.0, 3, 3, 1), (8, 8, 0.5, 3, 3, 1), (0.5, 0.5, 0.5, 1, 1, 1),
+            (1, 1, 0.5, 2, 10, 2), (0.5, 2, 1.0, 1, 10, 1), (2, 5, 0.5, 10, 10, 2), (8, 5, 0.5, 10, 10, 2)] + ([(20, 20, 0.5, 2, 2, 1), (2, 2, 0.5, 4, 4, 2)] if TH else [])
     for la, lb, sub, qa, qb, m in grid:
         kw = dict(max_useful_life=m, demand_poisson_mean_a=float(la), demand_poisson_mean_b=float(lb), substitution_probability=sub, max_order_quantity_a=qa, max_order_quantity_b=qb); p = HX(**kw)
         ss, ee = np.asarray(p.state_space), np.asarray(p.random_event_space); f = jax.jit(jax.vmap(p.random_event_probability, in_axes=(None, None, 0)))
